@@ -47,7 +47,7 @@ func Properties() map[string]*PropertySpec {
 	specs := []*PropertySpec{
 		{
 			ID:       "C01",
-			Rules:    []string{"COMMIT-LEADER", "QUORUM-SHAPE", "COMMIT-FOLLOWER", "OWNERS"},
+			Rules:    []string{"COMMIT-LEADER", "QUORUM-SHAPE", "COMMIT-FOLLOWER", "OWNERS", "SENDER", "APPLY-RECHECK"},
 			Thorough: []string{"AE-HANDLER", "VOTE-GRANT", "STATE-TRANSITIONS"},
 			Decided: "necessary conditions of state-machine safety visible in the code on every path: a leader advances commitIndex to i only with state = Leader, term(log[i]) = currentTerm and a strict majority of voters whose matchIndex ≥ i (counter fresh per index, voters only); " +
 				"a follower sets commitIndex only to Min(LeaderCommit, last index after append), monotonically, after accepting and appending; closed writer sets for commitIndex, lastApplied, StateMachine.Apply, Log.Truncate/Compact/DiscardEntries",
